@@ -66,6 +66,11 @@ def run(chk):
         extra.append(w)
     for _ in range(40 if not thorough else 400):
         extra.append([rng.randint(0, rng.choice([3, 30, 3000])) for _ in range(rng.randint(1, 12))])
+    # large diverse samples: many clones of a few cells each - the variance estimate is tiny (1e-12) but positive, and its
+    # square root is a perfectly ordinary number (no snapping to 0 by an absolute tolerance)
+    for _ in range(3 if not thorough else 12):
+        K = rng.choice([1500, 3000])
+        extra.append([rng.choice([1, 2, 3, 5, 7, 8, 9, 11, 13, 20]) for _ in range(K)])
     vecs = vecs + extra
     chk.exhaustive = True
 
@@ -146,6 +151,22 @@ def run(chk):
                 chk.broken_obligations.append(f"corr:stdpc~stdpc_n(counts) differs on xs={xs}")
                 break
 
+    # stdpc_joint = stdpc of the rows' joined feature labels (same counts, same estimator)
+    import pandas as _pd
+    for _ in range(10 if not thorough else 80):
+        n_ = rng.randint(4, 14)
+        dfj = _pd.DataFrame({"a": [rng.choice(["CA", "CB", "C"]) for _ in range(n_)], "b": [rng.choice(["x", "y"]) for _ in range(n_)],
+                            "c": [rng.choice(["1", "2"]) for _ in range(n_)]}, index=rng.sample(range(50), n_))
+        cols_ = rng.choice([["a", "b"], ["a", "b", "c"], ["b", "a"]])
+        gap = rng.choice(["_", "|"])
+        joined = [gap.join(str(dfj.iloc[i][c]) for c in cols_) for i in range(n_)]
+        r1 = core.call_real(lambda: float(st.stdpc_joint(dfj, cols_, gap_token=gap)) if gap != "_" else float(st.stdpc_joint(dfj, cols_)))
+        r2 = core.call_real(lambda: float(st.stdpc(joined)))
+        chk.case(nontrivial_key=("stdpc_joint", tuple(joined)))
+        chk.count("stdpc_joint")
+        same = r1 == r2 or (r1[0] == r2[0] == "ok" and math.isnan(r1[1]) and math.isnan(r2[1]))
+        if not same:
+            chk.violation("C06|stdpc_joint|differs", f"stdpc_joint(table, {cols_}) = {r1} but stdpc of the joined row labels = {r2}", {"rows": joined, "columns": cols_})
     # ---- property oracle on the REAL functions: exact expectations on rational grids
     grids = [(2, [Fraction(1, 3), Fraction(2, 3)]), (2, [Fraction(1, 2), Fraction(1, 2)]),
              (3, [Fraction(1, 2), Fraction(1, 3), Fraction(1, 6)]), (3, [Fraction(1, 5), Fraction(1, 5), Fraction(3, 5)]),
@@ -194,8 +215,10 @@ def run(chk):
     # (category labels: single letters; labels of different widths where one is a prefix of another - as lists and as
     # NumPy arrays whose dtypes then differ between the samples; integer vs float ids)
     label_sets = [("letters", lambda K: list("ABCDEF"[:K]), list), ("prefix-widths", lambda K: ["CAS", "CASS", "CASSLG", "CASSL"][:K], list),
-                  ("prefix-widths-ndarray", lambda K: ["CAS", "CASS", "CASSLG", "CASSL"][:K], np.array)]
-    for gi, ((K, p), (_, q)) in enumerate([(grids[0], grids[1]), (grids[2], grids[3])] * 3):
+                  ("prefix-widths-ndarray", lambda K: ["CAS", "CASS", "CASSLG", "CASSL"][:K], np.array),
+                  # each sample converted to a pandas categorical on its own: the category lists (and codes) of the two samples differ
+                  ("categorical-series", lambda K: ["CAS", "CAT", "CQ", "CW"][:K], lambda l: pd.Series(l).astype("category"))]
+    for gi, ((K, p), (_, q)) in enumerate([(grids[0], grids[1]), (grids[2], grids[3])] * 4):
         lname, mk, cont = label_sets[gi // 2]
         for N1, N2 in [(1, 1), (2, 3), (3, 2)]:
             tot = Fraction(0)
